@@ -84,7 +84,9 @@ def judge(ctx, c, answers):
             crit = False
         sub = {'ex': c['ex'], 'name': c['name'], 'inst': c['inst'], 'seed': c['seed'], 'answer': a}
         res.append(verdict)
-        if verdict == 'RAISED':
+        if verdict == 'RAISED' and getattr(ex, 'may_raise', False):
+            ctx.count(ex.name + ':raises(no try/except in this checker)')
+        elif verdict == 'RAISED':
             # only check_dfa_accepts_rejects-like functions may raise; the checkers modelled here catch exceptions
             ctx.violation('checker-raises', {'case': c_min(c), 'answer': a, 'out': out})
         elif verdict == 'OK' and not crit:
